@@ -294,3 +294,156 @@ def build_matrices(job):
     P = np.asarray(P, dtype=np.float64)
     R = np.asarray(R, dtype=np.float64)
     return {"P": [[_fx(row) for row in Pa] for Pa in P], "R": [_fx(row) for row in R], "pshape": list(P.shape), "rshape": list(R.shape)}
+
+
+# ----------------------------------------------------------------------------- checkpoint experiments (C09-C12)
+def _dir_listing(d):
+    import hashlib
+    import os
+    out = {"exists": os.path.isdir(d), "steps": [], "tmp": [], "config": False, "other": [], "digest": None}
+    if not out["exists"]:
+        return out
+    h = hashlib.sha1()
+    for name in sorted(os.listdir(d)):
+        p = os.path.join(d, name)
+        if name.isdigit() and os.path.isdir(p):
+            out["steps"].append(int(name))
+        elif "orbax-checkpoint-tmp" in name:
+            out["tmp"].append(name)
+        elif name == "config.yaml":
+            out["config"] = True
+        else:
+            out["other"].append(name)
+    for root, dirs, files in sorted(os.walk(d)):
+        dirs.sort()
+        for f in sorted(files):
+            fp = os.path.join(root, f)
+            h.update(os.path.relpath(fp, d).encode())
+            try:
+                with open(fp, "rb") as fh:
+                    h.update(fh.read())
+            except OSError:
+                pass
+    out["steps"].sort()
+    out["digest"] = h.hexdigest()
+    return out
+
+
+def observe_full(solver, name):
+    import numpy as np
+    o = observe(solver, name)
+    o["values_shape"] = list(np.asarray(solver.values).shape)
+    o["policy_dtype"] = None if solver.policy is None else str(np.asarray(solver.policy).dtype)
+    o["policy_vectors"] = None if solver.policy is None else np.asarray(solver.policy).astype(int).tolist()
+    o["ckpt"] = {"frequency": int(getattr(solver, "checkpoint_frequency", 0)), "max": int(getattr(solver, "max_checkpoints", 0)),
+                 "async": bool(getattr(solver, "enable_async_checkpointing", False)),
+                 "dir": str(getattr(solver, "checkpoint_dir", None)), "enabled": bool(solver.is_checkpointing_enabled)}
+    if name == "savi":
+        o["batch_order"] = None if solver.batch_order is None else [int(x) for x in np.asarray(solver.batch_order)]
+    return o
+
+
+def _config_dict(solver):
+    from omegaconf import OmegaConf
+    import dataclasses
+    cfg = solver.config
+    try:
+        if dataclasses.is_dataclass(cfg):
+            return json_safe(dataclasses.asdict(cfg))
+        return json_safe(OmegaConf.to_container(cfg, resolve=True))
+    except Exception as e:  # noqa: BLE001
+        return {"unserialisable": str(e)[:200]}
+
+
+def json_safe(x):
+    if isinstance(x, dict):
+        return {str(k): json_safe(v) for k, v in x.items()}
+    if isinstance(x, (list, tuple)):
+        return [json_safe(v) for v in x]
+    if isinstance(x, (int, float, str, bool)) or x is None:
+        return x
+    return str(x)
+
+
+def _apply_ops(solver, name, ops, obs, markers=False):
+    import sys as _sys
+    for op in ops:
+        if op[0] == "solve":
+            solver.solve(max_iterations=int(op[1]))
+            obs.append(observe_full(solver, name))
+        elif op[0] == "wait":
+            if getattr(solver, "checkpoint_manager", None) is not None:
+                solver.checkpoint_manager.wait_until_finished()
+            obs.append({"ok": True})
+        else:
+            raise ValueError(op[0])
+
+
+@handler("ckpt_run")
+def ckpt_run(job):
+    """Fresh process: build, run solve() calls with checkpointing, record a snapshot at every save() call."""
+    _quiet()
+    import jax
+    jax.config.update("jax_enable_x64", True)
+    problem = make_problem(job["problem"])
+    name = job["solver"]
+    cfg = dict(job["config"])
+    cfg.setdefault("verbose", 0)
+    before = _dir_listing(cfg.get("checkpoint_dir")) if cfg.get("checkpoint_dir") else None
+    solver = make_solver(name, problem, cfg)
+    after_ctor = _dir_listing(cfg.get("checkpoint_dir")) if cfg.get("checkpoint_dir") else None
+    saves = []
+    orig = solver.save
+
+    def rec(step):
+        saves.append({"step": int(step), "state": observe_full(solver, name), "enabled": bool(solver.is_checkpointing_enabled)})
+        return orig(step)
+
+    solver.save = rec
+    obs = [observe_full(solver, name)]
+    _apply_ops(solver, name, job.get("ops", []), obs)
+    if getattr(solver, "checkpoint_manager", None) is not None:
+        solver.checkpoint_manager.wait_until_finished()
+    return {"obs": obs, "saves": saves, "dir_before": before, "dir_after_ctor": after_ctor,
+            "dir": _dir_listing(cfg.get("checkpoint_dir")) if cfg.get("checkpoint_dir") else None,
+            "config": _config_dict(solver), "has_full_config": bool(solver.has_full_config)}
+
+
+@handler("ckpt_restore")
+def ckpt_restore(job):
+    """Fresh process: rebuild from a checkpoint directory (class-level restore or instance-level load_checkpoint),
+    observe, optionally continue."""
+    _quiet()
+    import jax
+    import mdpax.solvers as ms
+    jax.config.update("jax_enable_x64", True)
+    name = job["solver"]
+    cls = getattr(ms, SOLVERS[name])
+    src = job["dir"]
+    before = _dir_listing(src)
+    try:
+        if job.get("route", "restore") == "restore":
+            kw = dict(job.get("overrides", {}))
+            if job.get("step") is not None:
+                kw["step"] = job["step"]
+            solver = cls.restore(src, **kw)
+        else:
+            problem = make_problem(job["problem"])
+            cfg = dict(job["config"])
+            cfg.setdefault("verbose", 0)
+            solver = make_solver(name, problem, cfg)
+            if job.get("step") is not None:
+                solver.load_checkpoint(src, step=job["step"])
+            else:
+                solver.load_checkpoint(src)
+    except Exception as e:  # noqa: BLE001
+        return {"raised": type(e).__name__, "message": str(e)[:300], "dir_before": before, "dir_after": _dir_listing(src)}
+    obs = [observe_full(solver, name)]
+    after_restore = _dir_listing(src)
+    _apply_ops(solver, name, job.get("ops", []), obs)
+    if getattr(solver, "checkpoint_manager", None) is not None:
+        solver.checkpoint_manager.wait_until_finished()
+    newdir = job.get("overrides", {}).get("new_checkpoint_dir")
+    return {"obs": obs, "dir_before": before, "dir_after_restore": after_restore, "dir_after": _dir_listing(src),
+            "new_dir": _dir_listing(newdir) if newdir else None, "config": _config_dict(solver),
+            "problem_name": solver.problem.name, "n_states": int(solver.problem.n_states)}
